@@ -193,13 +193,13 @@ func (o *functionOperator) Next(ctx context.Context) ([]model.StepVector, error)
 		// scalar() depends on number of samples per vector and returns NaN if len(samples) != 1.
 		// So need to handle this separately here, instead of going via call which is per point.
 		if o.funcExpr.Func.Name == "scalar" {
-			if len(vector.Samples) <= 1 {
-				continue
+			// A scalar has exactly one sample (with ID 0) at every step.
+			v := math.NaN()
+			if len(vector.Samples) == 1 {
+				v = vector.Samples[0]
 			}
-
-			vectors[batchIndex].Samples = vector.Samples[:1]
-			vectors[batchIndex].SampleIDs = vector.SampleIDs[:1]
-			vector.Samples[0] = math.NaN()
+			vectors[batchIndex].Samples = append(vector.Samples[:0], v)
+			vectors[batchIndex].SampleIDs = append(vector.SampleIDs[:0], 0)
 			continue
 		}
 
@@ -238,7 +238,7 @@ func (o *functionOperator) loadSeries(ctx context.Context) error {
 		}
 
 		if o.funcExpr.Func.Name == "scalar" {
-			o.series = []labels.Labels{}
+			o.series = make([]labels.Labels, 1)
 			return
 		}
 
